@@ -306,7 +306,7 @@ impl TransformExtensionList {
                     current_tvalue.push(tval);
                 }
                 iter.next();
-            } else if is_language_subtag(subtag) {
+            } else if text.tlang.is_none() && is_language_subtag(subtag) {
                 text.tlang = Some(
                     LanguageIdentifier::try_from_iter(iter, true)
                         .map_err(|_| ParserError::InvalidLanguage)?,
